@@ -145,17 +145,37 @@ def strip_lean_comments(src):
     return "".join(out)
 
 
-def grep_forbidden():
-    hits = []
-    for root, _, files in os.walk(LEAN):
-        if ".lake" in root:
+def import_closure(modules):
+    """GemVerif modules reachable from `modules` through `import GemVerif.…` lines"""
+    seen, todo = set(), list(modules)
+    while todo:
+        m = todo.pop()
+        if m in seen:
             continue
-        for f in files:
-            if f.endswith(".lean"):
-                p = os.path.join(root, f)
-                for ln, line in enumerate(strip_lean_comments(open(p).read()).split("\n"), 1):
-                    if FORBIDDEN.search(line):
-                        hits.append(f"{os.path.relpath(p, LEAN)}:{ln}: {line.strip()}")
+        seen.add(m)
+        p = os.path.join(LEAN, m.replace(".", "/") + ".lean")
+        if not os.path.exists(p):
+            continue
+        for line in open(p):
+            mm = re.match(r"\s*import\s+(GemVerif\.[\w\.]+)", line)
+            if mm:
+                todo.append(mm.group(1))
+    return sorted(seen)
+
+
+def grep_forbidden(modules=None):
+    """forbidden tokens (comments discarded) in the files the given modules depend on (whole tree when None)"""
+    hits = []
+    if modules is None:
+        paths = [os.path.join(r, f) for r, _, fs in os.walk(LEAN) if ".lake" not in r for f in fs if f.endswith(".lean")]
+    else:
+        paths = [os.path.join(LEAN, m.replace(".", "/") + ".lean") for m in import_closure(modules)]
+    for p in paths:
+        if not os.path.exists(p):
+            continue
+        for ln, line in enumerate(strip_lean_comments(open(p).read()).split("\n"), 1):
+            if FORBIDDEN.search(line):
+                hits.append(f"{os.path.relpath(p, LEAN)}:{ln}: {line.strip()}")
     return hits
 
 
@@ -206,7 +226,7 @@ def prove(prop, modules=None):
     ok, log = lake_build(modules)
     res["build_ok"] = ok
     res["log"] = log[-6000:]
-    forb = grep_forbidden()
+    forb = grep_forbidden(modules)
     if forb:
         res["broken"].append({"theorem": "*", "reason": "forbidden tokens: " + "; ".join(forb[:5])})
     if not ok:
